@@ -133,6 +133,12 @@ pub struct GenParams {
     pub forget_auth_bump_pct: u64,
     /// deliberately invalid transactions are mostly nonce-too-low / nonce-too-high
     pub invalid_nonce_bias: bool,
+    /// contract 0 is the hand-written "withdraw" contract: mode 0 sets a flag (reads nothing),
+    /// mode 1 writes a data slot only while the flag is still 0, mode 2 copies a data slot without
+    /// ever reading the flag. A writer that ran before the flag setter withdraws its write on
+    /// re-execution, so its reader fails validation *without any preceding writer left* (the
+    /// "no dependency" re-offer path)
+    pub withdraw_contract: bool,
 }
 
 pub const CREATE2_SPECS: &[SpecId] = &[
@@ -179,6 +185,7 @@ impl Default for GenParams {
             derived_create_addrs: false,
             forget_auth_bump_pct: 0,
             invalid_nonce_bias: false,
+            withdraw_contract: false,
         }
     }
 }
@@ -549,6 +556,45 @@ pub fn generate(p: &GenParams, seed: u64) -> Case {
                 Stmt::Return(6),
             ];
         }
+        if p.withdraw_contract && i == 0 {
+            use progs::Arith::{Add, Eq};
+            prog.inits.clear();
+            prog.stmts = vec![
+                Stmt::ModK(5, 0, 3), // mode
+                // mode 0: SSTORE(0, 1)
+                Stmt::Const(6, 0),
+                Stmt::Arith(6, 5, 6, Eq),
+                Stmt::IfZeroSkip(6, 4),
+                Stmt::Const(7, 0),
+                Stmt::Const(4, 1),
+                Stmt::SStore(7, 1, 4),
+                Stmt::Stop,
+                // mode 1: if SLOAD(0) == 0 { SSTORE(1 + r1 mod 4, r2 + 1) }
+                Stmt::Const(6, 1),
+                Stmt::Arith(6, 5, 6, Eq),
+                Stmt::IfZeroSkip(6, 10),
+                Stmt::Const(7, 0),
+                Stmt::SLoad(4, 7, 1),
+                Stmt::IfNonZeroSkip(4, 6),
+                Stmt::ModK(7, 1, 4),
+                Stmt::Const(6, 1),
+                Stmt::Arith(7, 7, 6, Add),
+                Stmt::Const(6, 1),
+                Stmt::Arith(3, 2, 6, Add),
+                Stmt::SStore(7, 16, 3),
+                Stmt::Stop,
+                // mode 2: slot[8 + r2 mod 4] = SLOAD(1 + r1 mod 4)   (never reads the flag)
+                Stmt::ModK(7, 1, 4),
+                Stmt::Const(6, 1),
+                Stmt::Arith(7, 7, 6, Add),
+                Stmt::SLoad(3, 7, 16),
+                Stmt::ModK(7, 2, 4),
+                Stmt::Const(6, 8),
+                Stmt::Arith(7, 7, 6, Add),
+                Stmt::SStore(7, 16, 3),
+                Stmt::Return(3),
+            ];
+        }
         if p.destroy_flip_contract && i == 0 {
             use progs::Arith::{Add, Eq};
             prog.inits.clear();
@@ -607,7 +653,7 @@ pub fn generate(p: &GenParams, seed: u64) -> Case {
         let code = progs::compile(&prog);
         let addr = layout.con(i);
         let mut storage = BTreeMap::new();
-        for s in (p.stale_probe as u64)..mix.slots {
+        for s in ((p.stale_probe || (p.withdraw_contract && i == 0)) as u64)..mix.slots {
             if r.chance(1, 2) {
                 storage.insert(U256::from(s), U256::from(r.below(6)));
             }
